@@ -53,6 +53,54 @@ def _fit_abscissae(g, n, style):
     return x
 
 
+LAYOUTS = ['C', 'F', 'T', 'strided', 'Fstrided', 'reversed', 'rowreversed', 'readonly', 'bigendian']
+LAYOUTS_1D = ['C', 'C', 'strided', 'reversed', 'readonly', 'bigendian']
+
+
+def relayout(a, kind):
+    """Same shape, same values, different memory layout / flags (standing layout family for array arguments)."""
+    a = np.asarray(a)
+    if kind == 'C' or a.ndim == 0:
+        return np.array(a, order='C')
+    if a.ndim == 1:
+        if kind == 'strided':
+            big = np.full(2 * a.size, 1, dtype=a.dtype)
+            big[::2] = a
+            return big[::2]
+        if kind == 'reversed':
+            return np.ascontiguousarray(a[::-1])[::-1]
+        if kind == 'readonly':
+            b = a.copy()
+            b.setflags(write=False)
+            return b
+        if kind == 'bigendian' and a.dtype.kind == 'f':      # FITS-native byte order
+            return a.astype(a.dtype.newbyteorder('>'))
+        return a.copy()
+    if kind == 'F':
+        return np.asfortranarray(a)
+    if kind == 'T':                                    # IDL-style [nx, nTrace] data handed over as arr.T
+        return np.ascontiguousarray(a.T).T
+    if kind == 'strided':                              # C-ordered: every second column of a wider buffer
+        big = np.full((a.shape[0], 2 * a.shape[1]), 1, dtype=a.dtype)
+        big[:, ::2] = a
+        return big[:, ::2]
+    if kind == 'Fstrided':                             # Fortran-ordered: every second row of a taller buffer
+        big = np.full((2 * a.shape[0], a.shape[1]), 1, dtype=a.dtype, order='F')
+        big[::2, :] = a
+        return big[::2, :]
+    if kind == 'reversed':                             # negative stride along the pixel axis
+        return np.ascontiguousarray(a[:, ::-1])[:, ::-1]
+    if kind == 'rowreversed':                          # negative stride along the trace axis
+        return np.ascontiguousarray(a[::-1])[::-1]
+    if kind == 'readonly':
+        b = a.copy()
+        b.setflags(write=False)
+        return b
+    if kind == 'bigendian':                            # what a FITS table delivers
+        return a.astype(a.dtype.newbyteorder('>')) if a.dtype.kind == 'f' else a.copy()
+    raise KeyError(kind)
+
+
 def _lst(a):
     return np.asarray(a, dtype=np.float64).tolist()
 
@@ -74,6 +122,9 @@ class C13(Check):
             'constructors; float32 and float16 abscissa arrays with m = 8..13 (standing precision class, tolerance '
             '4*eps*d^2); FITS-style tables (D and E columns) with '
             'random coefficient matrices evaluated at given positions, on the default grid and with ignore_jump, then again '
+            '(every explicit xpos and every array given to xy2traceset drawn from the layout family C / Fortran / transposed '
+            'view / C- and F-strided / reversed along either axis / read-only / big-endian, func_fit arguments strided / '
+            'reversed / read-only / big-endian) '
             'on the same object in another order (jump / ignore_jump alternating, reshaped xpos, first xpos again); default '
             'grids with xmax-xmin exactly integral, within 1e-12..1e-3 of an integer and generic.  Non-trivial: a basis '
             'case with m >= 3; a fit with unequal weights, a zero weight or a fixed coefficient; a trace set with >= 2 '
@@ -107,6 +158,10 @@ class C13(Check):
                          'tset_jump_lo_exactly_zero', 'tset_jump_hi_exactly_zero', 'tset_jump_hi_at_last_pixel',
                          'tset_jump_val_zero', 'tset_jump_val_tiny', 'tset_jump_val_negative', 'tset_jump_window_outside',
                          'tset_xmin_explicit_zero', 'table_jump_falsy_value',
+                         'xpos_layout_C', 'xpos_layout_F', 'xpos_layout_T', 'xpos_layout_strided', 'xpos_layout_Fstrided',
+                         'xpos_layout_reversed', 'xpos_layout_rowreversed', 'xpos_layout_readonly', 'xpos_layout_bigendian',
+                         'tset_fit_args_layout_not_C', 'fit_args_layout_strided', 'fit_args_layout_reversed',
+                         'fit_args_layout_readonly', 'fit_args_layout_bigendian',
                          'table_eval_jump', 'table_eval_ignore_jump', 'table_eval_nojump', 'table_split_step_decided',
                          'grid_decided', 'grid_exact_integer_range', 'grid_fractional_range', 'grid_near_integer_range')
     MIN_NONTRIVIAL = 50
@@ -262,7 +317,7 @@ class C13(Check):
             case = {'kind': cls, 'dtype': dt, 'fn': fn, 'nc': nc, 'x': _lst(x), 'y': _lst(y),
                     'iv': None if wmode == 'none' else _lst(iv), 'ia': None if fixmode == 'none' else ia.tolist(),
                     'ans': None if ans is None else _lst(ans), 'inputfunc': None if inf is None else _lst(inf),
-                    'pseed': rng.getrandbits(32), 'strided': rng.random() < 0.25}
+                    'pseed': rng.getrandbits(32), 'vlayout': rng.choice(LAYOUTS_1D)}
             if ctrue is not None:
                 case['ctrue'] = _lst(ctrue)
             return case
@@ -391,7 +446,8 @@ class C13(Check):
                     'inmask': None if inmask is None else inmask.tolist(), 'mask_dtype': mask_dtype, 'outliers': outliers,
                     'pseed': rng.getrandbits(32), 'xmin': xmin, 'xmax': xmax, 'jump': jump, 'jkind': jm, 'mmkind': mm,
                     'maxiter': rng.choice([None, None, 0, 3, 20]), 'via': rng.choice(['xy2traceset', 'TraceSet']),
-                    'defaults': rng.random() < 0.5, 'minmax_int': rng.random() < 0.5, 'layout': rng.choice(['C', 'C', 'F'])}
+                    'defaults': rng.random() < 0.5, 'minmax_int': rng.random() < 0.5,
+                    'layouts': {k: rng.choice(LAYOUTS) for k in ('xfit', 'yfit', 'ivfit', 'maskfit', 'eval1', 'eval2', 'eval3')}}
         return None
 
     def gen_table(self, rng, g, i, deep, grid):
@@ -463,6 +519,7 @@ class C13(Check):
                 xp[g.uniform(size=xp.shape) < 0.03] = jump[1]
             case['xpos'] = [_lst(r) for r in xp.astype(DT[xd])]
             case['xdtype'] = xd
+            case['layouts'] = {k: rng.choice(LAYOUTS) for k in ('eval1', 'eval2', 'eval3')}
         return case
 
     # ------------------------------------------------------------------ run
@@ -569,13 +626,12 @@ class C13(Check):
         ia = None if case['ia'] is None else np.array(case['ia'], dtype=bool)
         ans = None if case['ans'] is None else np.array(case['ans'], dtype=D)
         inf = None if case['inputfunc'] is None else np.array(case['inputfunc'], dtype=D)
+        vl = case.get('vlayout') or ('strided' if case.get('strided') else 'C')
+
         def view(a):
-            # hostile memory layout: every second element of a larger buffer
-            if a is None or not case.get('strided') or a.dtype == bool:
-                return None if a is None else a.copy()
-            big = np.full(2 * a.size, 12345.0, dtype=a.dtype)
-            big[::2] = a
-            return big[::2]
+            # hostile memory layout: strided / reversed view of another buffer, read-only array
+            return None if a is None else relayout(a, vl)
+        out.count('fit_args_layout_' + vl)
         args = [view(a) for a in (x, y, iv, ia, ans, inf)]
         res, yfit = self._call_fit(case, *args)
         # inputs must not be modified
@@ -771,12 +827,20 @@ class C13(Check):
         if case['maxiter'] is not None:
             kw['maxiter'] = case['maxiter']
         ctor = T.xy2traceset if case['via'] == 'xy2traceset' else T.TraceSet
-        lay = np.asfortranarray if case.get('layout') == 'F' else np.array
-        for key in ('invvar', 'inmask'):
+        L = case.get('layouts') or {k: ('F' if case.get('layout') == 'F' else 'C') for k in ('xfit', 'yfit', 'ivfit', 'maskfit')}
+
+        def lay(a, slot, count=True):
+            kind = L.get(slot, 'C')
+            if count and slot.startswith('eval'):
+                out.count('xpos_layout_' + kind)
+            return relayout(a, kind)
+        for key, slot in (('invvar', 'ivfit'), ('inmask', 'maskfit')):
             if key in kw:
-                kw[key] = lay(kw[key])
+                kw[key] = lay(kw[key], slot)
+        if any(L.get(k, 'C') != 'C' for k in ('xfit', 'yfit', 'ivfit', 'maskfit')):
+            out.count('tset_fit_args_layout_not_C')
         given = {k: v.copy() for k, v in kw.items() if isinstance(v, np.ndarray)}
-        tset = ctor(lay(xpos), lay(ypos), **kw)
+        tset = ctor(lay(xpos, 'xfit'), lay(ypos, 'yfit'), **kw)
         for k, v in given.items():
             out.expect(np.array_equal(kw[k], v) and kw[k].dtype == v.dtype, 'tset-inputs-unchanged',
                        'the constructor modified its argument %s' % k)
@@ -790,8 +854,8 @@ class C13(Check):
                                                                       tset.ncoeff, tset.coeff.shape),))
         out.expect(bool(tset.has_jump) == (jump is not None), 'tset-attributes', 'has_jump = %r' % tset.has_jump)
         # evaluate again at the same positions, through both entry points
-        xe, ye = T.traceset2xy(tset, xpos.copy())
-        xe2, ye2 = tset.xy(xpos.copy())
+        xe, ye = T.traceset2xy(tset, lay(xpos, 'eval1'))
+        xe2, ye2 = tset.xy(lay(xpos, 'eval1', False))
         out.expect(np.array_equal(xe, xpos) and np.array_equal(xe2, xpos), 'tset-roundtrip',
                    'traceset2xy did not return the positions it was given')
         out.expect(ye.shape == xpos.shape and np.array_equal(ye, ye2), 'tset-roundtrip', 'traceset2xy and TraceSet.xy differ')
@@ -899,7 +963,7 @@ class C13(Check):
             big = 1e6 * max(1.0, float(np.abs(ypos.astype(np.float64)).max()))
             y2 = ypos.astype(np.float64)
             y2[masked] += p.choice([-1.0, 1.0], int(masked.sum())) * big
-            tset2 = ctor(lay(xpos), lay(y2.astype(D)), **kw)
+            tset2 = ctor(lay(xpos, 'xfit'), lay(y2.astype(D), 'yfit'), **kw)
             out.expect(np.array_equal(np.asarray(tset2.coeff), coeff), 'tset-masked-no-influence',
                        'coefficients changed when only masked / zero-weight points were changed (inmask dtype %s): '
                        'max change %.3g' % (case.get('mask_dtype'), float(np.abs(np.asarray(tset2.coeff, dtype=np.float64) -
@@ -918,13 +982,17 @@ class C13(Check):
                          band=SPLIT_BAND['f8'])
         # the same object evaluated again (after the default grid, with the other jump setting in between): nothing is stale
         if jump is not None:
-            xi, yi = tset.xy(xpos.copy(), ignore_jump=True)
+            xi, yi = tset.xy(lay(xpos, 'eval2'), ignore_jump=True)
             self._check_eval(out, 'tset-evaluate-ignore-jump', func, coeff, xpos, yi, xmin, xmax, None, eps, dt == 'f8', band)
-        xr, yr = T.traceset2xy(tset, xpos.copy())
+        xr, yr = T.traceset2xy(tset, lay(xpos, 'eval1', False))
         out.expect(np.array_equal(yr, ye), 'repeat-evaluation',
                    'second traceset2xy(tset, xpos) on the same object differs from the first')
+        # the same positions in another memory layout: against the reference (a vectorised evaluation may round differently)
+        xo, yo = T.traceset2xy(tset, lay(xpos, 'eval2'))
+        out.expect(np.array_equal(xo, xpos) and yo.shape == xpos.shape, 'tset-evaluate', 'positions not returned as given')
+        self._check_eval(out, 'tset-evaluate-layout', func, coeff, xpos, yo, xmin, xmax, jump, eps, dt == 'f8', band)
         half = xpos[:, ::-2].copy()
-        xh, yh = tset.xy(half.copy())
+        xh, yh = tset.xy(lay(half, 'eval3'))
         # (a different shape may take another BLAS summation order, so this one is compared with the reference, not bitwise)
         out.expect(yh.shape == half.shape, 'repeat-evaluation', 'y of shape %r for xpos of shape %r' % (yh.shape, half.shape))
         self._check_eval(out, 'repeat-evaluation', func, coeff, half, yh, xmin, xmax, jump, eps, dt == 'f8', band)
@@ -988,7 +1056,14 @@ class C13(Check):
         else:
             xd = case['xdtype']
             xpos = np.array(case['xpos'], dtype=DT[xd])
-            xe, ye = T.traceset2xy(tset, xpos.copy())
+            L = case.get('layouts') or {}
+
+            def lay(a, slot, count=True):
+                kind = L.get(slot, 'C')
+                if count:
+                    out.count('xpos_layout_' + kind)
+                return relayout(a, kind)
+            xe, ye = T.traceset2xy(tset, lay(xpos, 'eval1'))
             out.expect(np.array_equal(xe, xpos) and ye.shape == xpos.shape, 'table-evaluate',
                        'traceset2xy did not return the given positions / a y of the same shape')
             if case['fmt'] == 'E':
@@ -996,7 +1071,7 @@ class C13(Check):
             ok = self._check_eval(out, 'table-evaluate', func, coeff, xpos, ye, xmin, xmax, jump, EPS[xd], xd == 'f8',
                                   SPLIT_BAND[xd], jeps)
             if jump is not None:
-                xi, yi = tset.xy(xpos.copy(), ignore_jump=True)
+                xi, yi = tset.xy(lay(xpos, 'eval2'), ignore_jump=True)
                 ok = self._check_eval(out, 'table-evaluate-ignore-jump', func, coeff, xpos, yi, xmin, xmax, None, EPS[xd],
                                       xd == 'f8', SPLIT_BAND[xd]) and ok
             # repeated calls on the same object in another order: default grid with the jump again (after ignore_jump),
@@ -1006,10 +1081,13 @@ class C13(Check):
                 self._check_grid(out, tset, func, coeff, xmin, xmax, jump, eps_range, SPLIT_BAND['f8'], ignore_jump=True)
                 out.count('repeat_eval_alternating_jump')
             sub = xpos[:, ::-1][:, :max(1, xpos.shape[1] // 2)].copy()
-            xs, ys = tset.xy(sub.copy())
+            xs, ys = tset.xy(lay(sub, 'eval3'))
             ok = self._check_eval(out, 'repeat-evaluation', func, coeff, sub, ys, xmin, xmax, jump, EPS[xd], xd == 'f8',
                                   SPLIT_BAND[xd], jeps) and ok
-            xr, yr = T.traceset2xy(tset, xpos.copy())
+            xo, yo = T.traceset2xy(tset, lay(xpos, 'eval2'))
+            ok = self._check_eval(out, 'table-evaluate-layout', func, coeff, xpos, yo, xmin, xmax, jump, EPS[xd], xd == 'f8',
+                                  SPLIT_BAND[xd], jeps) and ok
+            xr, yr = T.traceset2xy(tset, lay(xpos, 'eval1', False))
             out.expect(np.array_equal(yr, ye), 'repeat-evaluation',
                        'second traceset2xy(tset, xpos) on the same object differs from the first')
             out.expect(np.array_equal(np.asarray(tset.coeff, dtype=np.float64), coeff.astype(np.float64)) and
